@@ -47,7 +47,7 @@ pub open spec fn seq_search_spec(arrs: Seq<ProxiedTickArray>, sp: int, a_to_b: b
 }
 
 impl<'a> SwapTickSequence<'a> {
-//@ fn util/swap_tick_sequence.rs get_next_initialized_tick_index in=/^impl<'a> SwapTickSequence<'a> \{/ -> r nodec
+//@ fn util/swap_tick_sequence.rs get_next_initialized_tick_index in=/^impl<'a> SwapTickSequence<'a> \{/ -> r nodec canary
     requires tick_spacing > 0, -IDX_BOUND() <= tick_index <= IDX_BOUND(), self.arrays@.len() <= 3, forall|j: int| 0 <= j < self.arrays@.len() ==> (#[trigger] self.arrays@[j]).wf(),
     ensures
         start_array_index >= self.arrays@.len() ==> r == err::<(usize, i32)>(ErrorCode::TickArraySequenceInvalidIndex),
